@@ -2403,8 +2403,42 @@ fn run_validate(case: &Value) -> Value {
         .flatten()
         .map(|w| z(day(*w.end)))
         .collect();
+    // the criteria tables of the peer files an unlocked run fetches (after cargo-vet's tolerant per-entry parsing,
+    // which strips implied names the peer does not define), each interned in its own namespace
+    let mut peer_tables: Vec<Value> = Vec::new();
+    if !locked {
+        for (name, import) in &config.imports {
+            for url in &import.url {
+                let text = case["peers"][url].as_str().unwrap_or("").to_owned();
+                let Ok(f) = crate::storage::foreign_audit_source_to_local_warn(
+                    name,
+                    crate::errors::SourceFile::new(url, text),
+                ) else {
+                    continue;
+                };
+                let pnames: Vec<String> = ["safe-to-run".to_owned(), "safe-to-deploy".to_owned()]
+                    .into_iter()
+                    .chain(f.criteria.keys().cloned())
+                    .collect();
+                let pshadows = f.criteria.keys().any(|k| k == "safe-to-run" || k == "safe-to-deploy");
+                let ptable: Vec<Value> = f
+                    .criteria
+                    .values()
+                    .map(|e| {
+                        Value::Array(
+                            e.implies
+                                .iter()
+                                .map(|c| json!(pnames.iter().position(|n| n == &**c).map(|i| i as u64).unwrap_or(UNKNOWN)))
+                                .collect(),
+                        )
+                    })
+                    .collect();
+                peer_tables.push(pair(json!(pshadows), Value::Array(ptable)));
+            }
+        }
+    }
     let model_in = json!({"locked": locked, "shadows": shadows, "table": table, "max_end": z(day(max_end)),
-                          "ends": ends, "refs": refs});
+                          "ends": ends, "refs": refs, "peers": peer_tables});
 
     // ---- the real thing: canonical files (so that a locked load does not trip over
     // the generator's formatting), load, go online, resolve, compute updates
